@@ -1,0 +1,11 @@
+//go:build verif
+
+package poseidon
+
+// Contracts checked by /verif (govc). Comments only; see /verif/DESIGN.md.
+
+//@ func (Poseidon2) DefineGadget
+//@   property C05
+//@   returns Variable
+//@   ensures result == merkle.H2(g.In1, g.In2)
+//@   ensures inField(result)
